@@ -14,7 +14,7 @@ ASCII = ("1", ".", "(", ")", "*", "x", "\n")
 STATES = (None,) + autox.DECODER_NAMES
 _QUICK = True
 PRIME_QUICK = (1, 6)
-PRIME_THOROUGH = (1, 2, 3, 5, 8, 13, 21, 34, 64)
+PRIME_THOROUGH = (1, 2, 6, 21, 64)
 
 
 def primed(state, k, makers):
